@@ -534,7 +534,7 @@ _addtie("C03", ["TieSlurp"], TIE_SLURP)
 # wave 5 (continued): a transient write fault must not leave partial bytes in front of the next message (C02);
 # what a connection makes of its bytes must not depend on what other connections read in between (C03);
 # an oversized CopyData inside a binary COPY (C14: the `copy` campaign places one in every position)
-_addcamp("C02", "wfonce", 300, 30000)
+_addcamp("C02", "wfonce", 300, 6000)
 _addcamp("C03", "multi", 300, 10000)
 _addcamp("C14", "copy", 800, 30000)
 # names of one connection are never visible to another (C07): overlapping connections that prepare the same name
